@@ -21,6 +21,49 @@ CHECKS = {
         "validated by correspondence only); non-ASCII input is checked implementation-vs-reference only. The text round "
         "trip parse(to_string v) is established by the oracle on every case, not yet by a theorem.",
    technique="Coq proof over an executable model + differential correspondence (extracted OCaml vs implementation) + reference oracle"),
+ "C04": dict(
+   text="Coq theorems: for every candidate (all pre/post/dev/local forms) the ranges the parser builds for >=, <=, == and bare "
+        "versions admit exactly what the specifier semantics of Spec/Specifier.v admits, and for > and < against a final "
+        "release likewise (post-releases/local builds of V rejected by >V, pre/dev releases by <V); for any literal and "
+        "candidates of another release, membership is plain interval membership. Spec/Specifier.v is validated against "
+        "packaging.specifiers on every run; the parser and VersionRange.allows models are tied to the code by running the "
+        "extracted model and parse_constraint(...).allows on the same ~90k (specifier set, candidate) cases; the property "
+        "itself is evaluated on the implementation against SpecifierSet.contains(prereleases=True) for every in-domain case.",
+   design="8/C04",
+   note=BASE_NOTE + "Not yet theorems (correspondence + reference oracle only): !=, ~=, ==X.*, !=X.*, comma-joined sets, ^, ~, ||. "
+        "The two re.split calls of _parse_constraint are not modelled (the model receives the implementation's clause lists).",
+   technique="Coq proof over an executable model + differential correspondence + reference oracle (packaging)"),
+ "C05": dict(
+   text="Coq theorems (tier A, range level): on regular probes VersionRange.allows/Version.allows are plain interval "
+        "membership; exact meaning of allows_lower/allows_higher/is_strictly_lower for every regular probe (finite rank "
+        "embedding + lia); the intersection of two VersionRanges is defined (the assert is unreachable) and admits a regular "
+        "probe exactly when both do. Union-valued operands, union and difference are modelled in full (VersionUnion.of, the "
+        "merge walks, difference state machine) and decided by correspondence: model and implementation run on the same "
+        "2500 generated pairs x 3 operations per quick run, compared structurally (type, bounds, text) and on ~35 critical "
+        "probes per case; the property oracle (regular probes, commutativity, empty/universal identities) runs on the implementation.",
+   design="8/C05",
+   note=BASE_NOTE + "Partial: the full statement (C05_full_statement in coq/Properties/C05.v) is proved only for two range operands "
+        "and intersection; union/difference and VersionUnion operands rest on correspondence and the oracle.",
+   technique="Coq proof (rank embedding + lia) over an executable model + differential correspondence + property oracle"),
+ "C12": dict(
+   text="Coq theorems: is_empty/is_any flags are unconditional (all probes); for two VersionRanges 'allows all' = yes implies "
+        "containment and 'allows any' = no implies disjointness on every regular probe; a range allows all of itself. Union "
+        "walks are modelled and tied by correspondence on 4000 generated pairs per quick run; the oracle checks the five "
+        "clauses of the property on the implementation (allows_any <-> non-empty intersection included).",
+   design="8/C12",
+   note=BASE_NOTE + "Partial: union-level walks (VersionUnion.allows_all/allows_any) and allows_any <-> intersection are decided "
+        "by correspondence and oracle, not yet by theorems.",
+   technique="Coq proof over an executable model + differential correspondence + property oracle"),
+ "C15": dict(
+   text="Coq theorems: next_major/next_minor/next_patch/next_breaking return final releases strictly greater than V (any "
+        "well-formed V); ^V and ~V (the ranges parse_single builds) admit V and reject their upper bound and every "
+        "pre-release/dev release of it. The text round trip is decided by correspondence (str() of every parsed constraint "
+        "and of every algebra result in C05's stream equals the model's printer output byte for byte) and by the oracle: "
+        "re-parse and compare on regular probes, reference specifier syntax for single ranges/wildcards/exclusions, ~=V against "
+        "the reference compatible-release clause.",
+   design="8/C15",
+   note=BASE_NOTE + "Partial: the text round trip is not a theorem yet.",
+   technique="Coq proof over an executable model + differential correspondence + oracle (re-parse, packaging)"),
 }
 REASON_TODO = "check not built yet (build phase in progress); it will be claimed once its Coq model, theorems and correspondence exist"
 m = {"version": 1,
